@@ -298,6 +298,17 @@ def stack_guards(repo, rep):
                 for c in ast.walk(b):
                     if isinstance(c, ast.Call) and isinstance(c.func, ast.Attribute) and c.func.attr == "reset_coords" and c.args:
                         acted = repo.const(fi.module, c.args[0])
+                        if isinstance(n.test.left, ast.Name) and isinstance(c.args[0], ast.Name) and n.test.left.id == c.args[0].id:
+                            # loop form:  for coord in [LON, LAT]: if coord in dset.coords: dset = dset.reset_coords(coord)
+                            lp = getattr(n, "_parent", None)
+                            while lp is not None and not isinstance(lp, ast.For):
+                                lp = getattr(lp, "_parent", None)
+                            if lp is not None and isinstance(lp.target, ast.Name) and lp.target.id == n.test.left.id and isinstance(lp.iter, (ast.List, ast.Tuple)):
+                                names_ = [repo.const(fi.module, e_) for e_ in lp.iter.elts]
+                                n_ok += len(names_)
+                                rep.ok("R-C11-9", f"{fi.file}:{n.lineno} _check_and_stack_dims", f"for {lp.target.id} in {names_}: if in coords: reset_coords",
+                                       "guard and action name the same variable")
+                                continue
                         if tested == acted:
                             n_ok += 1
                             rep.ok("R-C11-9", f"{fi.file}:{n.lineno} _check_and_stack_dims", f"if {tested!r} in coords: reset_coords({acted!r})", "guard and action name the same variable")
